@@ -282,6 +282,22 @@ def cases(rng, tier):
     for p in [3, 5, 7, 13, 17, 97, 257, 65537, 2 ** 31 - 1, 2 ** 61 - 1]:
         out.append(mk(p, seed(), script_bases(p, [1, p - 1, 2 % p or 1, (p - 1) // 2 or 1] * 5), 'script-prime', expected=True))
         out.append(mk(p, seed(), [255] * 12, 'script-prime', expected=True))
+    # 6b. machine-word boundaries: the primes and a few composites next to 2^8, 2^16, 2^31, 2^32, 2^33, 2^63, 2^64, 2^65, 2^128
+    # (a fast path in u32/u64 arithmetic wraps or panics exactly there), squares of the primes next to 2^16 and 2^32
+    def near(k, step):
+        x = 2 ** k + (1 if step > 0 else -1)
+        while not ref_prime(x): x += step
+        return x
+    for kb in (8, 16, 31, 32, 33, 63, 64):
+        for step in (1, -1):
+            q = near(kb, step)
+            out.append(mk(q, seed(), [], 'word-boundary-prime', expected=True))
+            for d in (2, -2, 4, 6):
+                m = q + d
+                if m > 3: out.append(mk(m, seed(), [], 'word-boundary', expected=ref_prime(m)))
+            if kb in (16, 32): out.append(mk(q * q, seed(), [], 'word-boundary', expected=False))
+    for m in (2 ** 32 - 5, 2 ** 32 - 17, 2 ** 32 + 15, 2 ** 31 - 1, 65521 * 65537, 4294967291 * 4294967311, 2 ** 64 - 59, 2 ** 64 + 13):
+        out.append(mk(m, seed(), [], 'word-boundary', expected=ref_prime(m)))
     # 7. the consumer named by the property: ecm::factorize stops splitting exactly where is_prime says "prime". Perfect powers of
     # composites, prime powers, Carmichael numbers and their squares: every base reported must be prime and the product n
     # (same operation, model and oracle as C01; the model replays the logged draws)
